@@ -41,6 +41,27 @@ pub fn plan(seed: u64) -> Vec<Vec<Op>> {
     };
     let n_threads = 2 + r.below(2) as usize;
     let mut threads = vec![];
+    if seed % 2 == 1 {
+        // "hot" workload: every thread hammers one or two accessors on the
+        // same two receivers (warm after the first call)
+        let kinds: Vec<&str> = (0..1 + r.below(2)).map(|_| *r.pick(&KINDS[..7])).collect();
+        let recv: Vec<(&str, i128)> = zones
+            .iter()
+            .map(|z| (*z, r.range(0, 2_000_000_000) as i128 * 1_000_000_000 + 123_456_789))
+            .collect();
+        for _ in 0..3 {
+            let mut v = vec![];
+            for _ in 0..4 {
+                let (z, ns) = *r.pick(&recv);
+                let kind: &str = *r.pick(&kinds);
+                let mut o = Op::new(kind, z, ns);
+                o.sel = r.below(1000) as u32;
+                v.push(o);
+            }
+            threads.push(v);
+        }
+        return threads;
+    }
     for _ in 0..n_threads {
         let n = 2 + r.below(2) as usize;
         let mut v = vec![];
